@@ -81,7 +81,7 @@ pub fn profile(prop: &str, thorough: bool) -> Option<Profile> {
             prop: "C04",
             name: "rotation",
             ops: (30, 55),
-            w: Weights { rekey: 9, keygen: 5, refresh: 8, encaps: 9, roundtrip: 3, matrix: 4, ..z },
+            w: Weights { rekey: 9, prune: 2, keygen: 5, refresh: 8, encaps: 9, roundtrip: 3, matrix: 4, ..z },
             max_attrs: 3,
             ..base
         },
@@ -99,7 +99,7 @@ pub fn profile(prop: &str, thorough: bool) -> Option<Profile> {
             name: "disable",
             ops: (25, 45),
             w: Weights {
-                disable: 5, add_attr: 3, add_dim: 1, update: 6, rekey: 6, prune: 3, keygen: 4, refresh: 5, encaps: 10,
+                disable: 5, add_attr: 3, add_dim: 1, rename: 2, update: 6, rekey: 6, prune: 3, keygen: 4, refresh: 5, encaps: 10,
                 roundtrip: 4, derive_mpk: 4, matrix: 3, ..z
             },
             omega_targets: true,
@@ -307,6 +307,70 @@ pub fn run(cfg: &RunCfg) -> Stats {
             total.lock().unwrap().inconclusive.push("worker thread died".into());
         }
     }
-    let s = std::mem::take(&mut *total.lock().unwrap());
+    let mut s = std::mem::take(&mut *total.lock().unwrap());
+    if cfg.prop == "C05" && cfg.profile_name.is_none() {
+        verbatim_names(&mut s);
+    }
     s
+}
+
+/// Deletion acts on exactly the attribute that was named. Names that differ only by surrounding
+/// white space are different names for every structure-editing call (only the policy *parser*
+/// trims): deleting `" FIN"` next to `"FIN"` must revoke the former and leave the latter alone.
+/// Policies are built as objects here (`AccessPolicy::Term`), since no string denotes a padded name.
+fn verbatim_names(st: &mut Stats) {
+    use crate::real::*;
+    use crate::report::Finding;
+    use crate::wire::WMsk;
+    let mut fail = |st: &mut Stats, sig: &str, detail: String| {
+        st.findings.push(Finding { prop: "C05".into(), signature: format!("C05:verbatim-names:{sig}"), detail, replay: json!({"monitor": "hist", "scenario": "verbatim-names"}) });
+    };
+    for (twin, padded) in [("FIN", " FIN"), ("FIN", "FIN "), ("FIN", "FIN\t"), ("a b", " a b"), ("X", "\tX ")] {
+        let cc = Covercrypt::default();
+        let Out::Ok((mut msk, _)) = call(|| cc.setup()) else { return };
+        let q = |n: &str| QualifiedAttribute::new("D", n);
+        let _ = msk.access_structure.add_anarchy("D".into());
+        for (n, h) in [(twin, false), (padded, true), ("Other", false)] {
+            if msk.access_structure.add_attribute(q(n), hint(h), None).is_err() {
+                // a structure that refuses such names has nothing to delete wrongly
+                st.bump("verbatim_names_refused_at_creation");
+                return;
+            }
+        }
+        let Out::Ok(mpk) = call(|| cc.update_msk(&mut msk)) else { return };
+        let term = |n: &str| AccessPolicy::Term(q(n));
+        let (Out::Ok(mut usk_p), Out::Ok(mut usk_t)) = (call(|| cc.generate_user_secret_key(&mut msk, &term(padded))), call(|| cc.generate_user_secret_key(&mut msk, &term(twin)))) else { return };
+        let (Out::Ok((_, e_p)), Out::Ok((s_t, e_t))) = (call(|| cc.encaps(&mpk, &term(padded))), call(|| cc.encaps(&mpk, &term(twin)))) else { return };
+        if !call(|| msk.access_structure.del_attribute(&q(padded))).is_ok() {
+            st.bump("verbatim_names_delete_refused");
+            continue;
+        }
+        if !call(|| cc.update_msk(&mut msk)).is_ok() {
+            continue;
+        }
+        st.bump("verbatim_name_deletions");
+        st.shapes.insert(fnv(format!("verbatim|{padded:?}").as_bytes()));
+        let names: Vec<Vec<u8>> = ser(&msk).ok().and_then(|b| WMsk::parse(&b).ok()).map(|w| w.structure.dims.iter().flat_map(|d| d.attrs.iter().map(|a| a.name.clone())).collect()).unwrap_or_default();
+        let has = |n: &str| names.iter().any(|x| x == n.as_bytes());
+        if has(padded) || !has(twin) {
+            fail(st, "wrong-attribute-deleted", format!("after deleting D::{padded:?} the structure holds {:?}", names.iter().map(|n| String::from_utf8_lossy(n).to_string()).collect::<Vec<_>>()));
+            continue;
+        }
+        for keep in [true, false] {
+            let _ = call(|| cc.refresh_usk(&mut msk, &mut usk_p, keep));
+            let _ = call(|| cc.refresh_usk(&mut msk, &mut usk_t, keep));
+            st.add("decaps_evaluated", 2);
+            if let Out::Ok(Some(_)) = call(|| cc.decaps(&usk_p, &e_p)) {
+                fail(st, "refreshed-key-opens-deleted-attribute", format!("key for the deleted D::{padded:?}, refreshed (keep={keep}), still opens an encapsulation for it"));
+                break;
+            }
+            match call(|| cc.decaps(&usk_t, &e_t)) {
+                Out::Ok(Some(k)) if secret_bytes(&k) == secret_bytes(&s_t) => {}
+                o => {
+                    fail(st, "refreshed-key-lost-untouched-attribute", format!("key for D::{twin:?} (not deleted), refreshed (keep={keep}): {}", match o { Out::Ok(None) => "None".to_string(), Out::Ok(Some(_)) => "another secret".to_string(), x => x.describe() }));
+                    break;
+                }
+            }
+        }
+    }
 }
